@@ -24,3 +24,18 @@ Theorem SYS_pool_prints_file_lines : forall cap sel f sch s',
   printed (slots (list string) s') (List.length sel) = file_lines (file_as_src sel f).
 Proof. exact pool_prints_file_lines. Qed.
 Print Assumptions SYS_pool_prints_file_lines.
+
+(* Both kinds of front-end (the two CLIs and the two go/analysis drivers) print the same diagnostic lines
+   whenever their flags select the same checkers and the CLI filters no file; an init error on one side is
+   an init error on the other. *)
+Theorem SYS_frontends_agree : forall reg fl af cfg files,
+  forallb valid_checker reg = true ->
+  (forall c, In c reg -> an_selected af c = cli_selected reg fl c) ->
+  (forall f, In f files -> file_checked cfg {| fname := sf_name f; fgroups := sf_groups f; fwarn := [] |} = true) ->
+  match system_run reg fl cfg files, analysis_run reg af files with
+  | SysFatal _, AnError => True
+  | SysExit c1 l1, AnExit c2 l2 => l1 = l2 /\ (c2 = 0%Z <-> l1 = []) /\ (l1 = [] -> c1 = 0%Z)
+  | _, _ => False
+  end.
+Proof. exact frontends_agree. Qed.
+Print Assumptions SYS_frontends_agree.
